@@ -62,6 +62,8 @@ pub enum Action {
     CancelConsumer { ch: u16, nth_consumer: u32, nowait: bool },
     /// the cancel goes on the wire, the close follows it at once
     CancelThenCloseChannel { ch: u16, nth_consumer: u32, nowait: bool, code: u16, text: String },
+    /// the cancel goes on the wire, the connection close follows it at once
+    CancelThenCloseConnection { ch: u16, nth_consumer: u32, nowait: bool, code: u16, text: String },
     Blocked(String),
     Unblocked,
     /// `count` more deliveries for the nth consumer of the channel (if it is still consuming)
@@ -1051,6 +1053,11 @@ impl Broker {
                 self.do_action_n(Action::CancelConsumer { ch, nth_consumer, nowait }, 40001);
                 self.flush_all();
                 self.do_action_n(Action::CloseChannel { ch, code, text }, 40001);
+            }
+            Action::CancelThenCloseConnection { ch, nth_consumer, nowait, code, text } => {
+                self.do_action_n(Action::CancelConsumer { ch, nth_consumer, nowait }, 40001);
+                self.flush_all();
+                self.do_action_n(Action::CloseConnection { code, text }, 40001);
             }
             Action::CloseConnection { code, text } => {
                 let handshaking = matches!(self.phase, Phase::AwaitHeader | Phase::AwaitStartOk | Phase::AwaitTuneOk | Phase::AwaitOpen) || (self.phase == Phase::Open && !self.open_ok_on_wire);
